@@ -37,6 +37,8 @@ pub enum Instr
     Nop { tag: String },
     /// like FailIf, but on the real file system the shell ends in the given way: 0 `exit 3`, 1 SIGKILL, 2 SIGTERM, 3 SIGHUP
     DieIf { flag: String, how: u8 },
+    /// prints `err` bytes to stderr and `out` bytes to stdout (real file system only; nothing in the model)
+    Noise { err: u32, out: u32 },
 }
 
 impl Instr
@@ -63,6 +65,7 @@ impl Instr
             Instr::FailOn { src, content } => format!("failon {} {}", src, content),
             Instr::Nop { tag } => format!("nop {}", tag),
             Instr::DieIf { flag, how } => format!("dieif {} {}", flag, how),
+            Instr::Noise { err, out } => format!("noise {} {}", err, out),
         }
     }
 
@@ -99,6 +102,7 @@ pub fn parse_line(line: &str) -> Result<Vec<Instr>, String>
             "failif" if chunk.len() == 2 => Instr::FailIf { flag: chunk[1].to_string() },
             "failon" if chunk.len() == 3 => Instr::FailOn { src: chunk[1].to_string(), content: chunk[2].to_string() },
             "nop" if chunk.len() == 2 => Instr::Nop { tag: chunk[1].to_string() },
+            "noise" if chunk.len() == 3 => Instr::Noise { err: chunk[1].parse().unwrap_or(0), out: chunk[2].parse().unwrap_or(0) },
             "dieif" if chunk.len() == 3 => Instr::DieIf { flag: chunk[1].to_string(), how: chunk[2].parse().unwrap_or(0) },
             _ => return Err(format!("bad instruction {:?}", chunk)),
         };
@@ -167,7 +171,7 @@ pub fn run_line<F: CmdFs>(fs: &mut F, line: &str) -> (i32, String)
                     None => return (1, format!("{}: No such file", src)),
                 }
             }
-            Instr::Nop { .. } => {}
+            Instr::Nop { .. } | Instr::Noise { .. } => {}
             Instr::DieIf { flag, how } =>
             {
                 if fs.exists(&flag) { return (if how == 0 { 3 } else { 137 }, format!("flag {} present", flag)); }
